@@ -28,6 +28,7 @@ type CohMut struct {
 	ID   string          `json:"id"`
 	Val  json.RawMessage `json:"v,omitempty"`
 	Y    int             `json:"y,omitempty"` // yields inside the transaction
+	Cont bool            `json:"cont,omitempty"` // same write transaction as the previous mutation (same id)
 }
 
 // CohCase is a case of the store-handler coherence scenario.
@@ -95,6 +96,10 @@ func (StoreCohScenario) GenCase(r *rand.Rand, prop string) interface{} {
 				m := CohMut{Kind: pick(r, "create", "update", "update", "update", "delete"), ID: pick(r, cohIDs...), Y: r.IntN(2)}
 				if chance(r, 50) {
 					m.ID = "a"
+				}
+				if len(muts) > 0 && chance(r, 25) {
+					// several mutations inside one write transaction
+					m.ID, m.Cont = muts[len(muts)-1].ID, true
 				}
 				if m.Kind != "delete" {
 					if c.Coll {
@@ -455,24 +460,26 @@ func describeParked(sim *sched.Sim) string {
 }
 
 func (cr *cohRun) mutate(muts []CohMut) {
-	for i, mu := range muts {
+	for i := 0; i < len(muts); {
 		cr.sim.Yield("mut.op", strconv.Itoa(i))
-		if cr.mock != nil {
+		wt := cr.st.Write(cr.storeID(muts[i].ID))
+		for first := true; i < len(muts) && (first || (muts[i].Cont && muts[i].ID == muts[i-1].ID)); i++ {
+			mu := muts[i]
+			first = false
 			// mockstore regime: the whole transaction is one atomic step
-		}
-		wt := cr.st.Write(cr.storeID(mu.ID))
-		for y := 0; y < mu.Y; y++ {
-			if cr.mock == nil {
-				cr.sim.Yield("mut.intxn", mu.ID)
+			for y := 0; y < mu.Y; y++ {
+				if cr.mock == nil {
+					cr.sim.Yield("mut.intxn", mu.ID)
+				}
 			}
-		}
-		switch mu.Kind {
-		case "create":
-			wt.Create(cr.decodeVal(mu.Val))
-		case "update":
-			wt.Update(cr.decodeVal(mu.Val))
-		case "delete":
-			wt.Delete()
+			switch mu.Kind {
+			case "create":
+				wt.Create(cr.decodeVal(mu.Val))
+			case "update":
+				wt.Update(cr.decodeVal(mu.Val))
+			case "delete":
+				wt.Delete()
+			}
 		}
 		wt.Close()
 	}
